@@ -492,7 +492,8 @@ fn parse_qualified_rule(input: &mut StepParser, ss: &mut StyleSheetTransformer) 
     if ss.options.convert_host {
         let r = input.try_parse::<_, _, ParseError<()>>(|input| {
             input.expect_colon()?;
-            let Ok(next) = input.next() else {
+            // (a pseudo-class name follows its colon directly: `: host` is not `:host`)
+            let Ok(next) = input.next_including_whitespace() else {
                 return Ok(());
             };
             let mut invalid = match &*next {
